@@ -97,7 +97,9 @@ fn operand_load(
         } => {
             let reg = get_register(*reg)?;
             let reg_value = reg.get();
-            assert_eq!(reg.bits(), 128);
+            if reg.bits() != 128 {
+                return Err(unsupported());
+            }
 
             let (shift, width) = arr_spec_offset_width(arrspec);
 
@@ -183,7 +185,9 @@ fn operand_store(block: &mut il::Block, opr: &bad64::Operand, value: il::Express
             arrspec: Some(arrspec),
         } => {
             let reg = get_register(*reg)?;
-            assert_eq!(reg.bits(), 128);
+            if reg.bits() != 128 {
+                return Err(unsupported());
+            }
 
             let (shift, width) = arr_spec_offset_width(arrspec);
             let is_indexed = is_arr_spec_indexed(arrspec);
@@ -604,7 +608,7 @@ pub(super) fn add(
         let rhs = operand_load(block, &instruction.operands()[2], bits)?;
 
         // perform operation
-        let src = il::Expression::add(lhs, rhs).unwrap();
+        let src = il::Expression::add(lhs, rhs).map_err(|_| unsupported())?;
 
         // store result
         operand_store(block, &instruction.operands()[0], src)?;
@@ -631,7 +635,7 @@ pub(super) fn adds(
         let rhs = operand_load(block, &instruction.operands()[2], bits)?;
 
         // perform operation
-        let result = il::Expression::add(lhs.clone(), rhs.clone()).unwrap();
+        let result = il::Expression::add(lhs.clone(), rhs.clone()).map_err(|_| unsupported())?;
 
         let unsigned_sum = il::Expression::add(
             il::Expression::zext(72, lhs.clone()).unwrap(),
@@ -1374,7 +1378,7 @@ pub(super) fn sub(
         let rhs = operand_load(block, &instruction.operands()[2], bits)?;
 
         // perform operation
-        let src = il::Expression::sub(lhs, rhs).unwrap();
+        let src = il::Expression::sub(lhs, rhs).map_err(|_| unsupported())?;
 
         // store result
         operand_store(block, &instruction.operands()[0], src)?;
@@ -1401,7 +1405,7 @@ pub(super) fn subs(
         let rhs = operand_load(block, &instruction.operands()[2], bits)?;
 
         // perform operation
-        let result = il::Expression::sub(lhs.clone(), rhs.clone()).unwrap();
+        let result = il::Expression::sub(lhs.clone(), rhs.clone()).map_err(|_| unsupported())?;
 
         let unsigned_sum = il::Expression::sub(
             il::Expression::zext(72, lhs.clone()).unwrap(),
